@@ -3213,3 +3213,140 @@ func ruleFontSizeUnderRotation(c *eng.Ctx) {
 	ok := (used[0] && used[1]) || (used[2] && used[3])
 	c.Check(ok, R, "graphicsstate.(*GraphicsState).GetEffectiveFontSize#components", fn.Pos(), "uses components "+strings.Join(ks, ",")+" of the text matrix", "the font size is scaled by components "+strings.Join(ks, ",")+" of the text matrix only: neither (a,b) nor (c,d) is complete, so text under a rotated text matrix is reported too small (0 at 90 degrees)")
 }
+
+// R8.8 [C08]
+func ruleFormStateIsolated(c *eng.Ctx) {
+	const R = "R8.8-FORM-STATE-ISOLATED"
+	c.Rule(R, "painting a form XObject behaves as if its content stood between q and Q, with the form's /Matrix applied: (a) the /Matrix entry is resolved before it is taken for an array (it may be an indirect reference); (b) after the form's operations the q/Q stack is brought back to the depth it had when the form was entered (states the form saved and never restored are dropped there, not left for the caller's next Q); (c) a Q inside a form is carried out only while the stack is deeper than it was on entry (a stray Q does not pop a state the caller saved)", 3, 0)
+	fn := c.P.Func("text.(*Extractor).invokeXObject")
+	po := c.P.Func("text.(*Extractor).processOperation")
+	if fn == nil || po == nil {
+		c.Undec(R, "text.(*Extractor).invokeXObject", token.NoPos, "anchor not found")
+		return
+	}
+	cluster := eng.Cluster(fn, 1)
+	// (a)
+	okMatrix, nMatrix := true, 0
+	for _, h := range cluster {
+		if h.Pkg != fn.Pkg {
+			continue
+		}
+		eng.Instrs(h, false, func(in ssa.Instruction) {
+			ta, ok := in.(*ssa.TypeAssert)
+			if !ok || !strings.HasSuffix(eng.TypeName(ta.AssertedType), "core.Array") {
+				return
+			}
+			fromMatrix, resolved := false, false
+			for w := range eng.Slice(ta.X, func(*ssa.Call) bool { return true }) {
+				call, ok := w.(*ssa.Call)
+				if !ok {
+					continue
+				}
+				n := eng.CalleeName(call)
+				if strings.HasSuffix(n, "core.Dict.Get") && len(call.Call.Args) == 2 {
+					if s, ok := eng.ConstString(call.Call.Args[1]); ok && s == "Matrix" {
+						fromMatrix = true
+					}
+				}
+				if strings.Contains(strings.ToLower(n), "resolve") {
+					resolved = true
+				}
+			}
+			if fromMatrix {
+				nMatrix++
+				if !resolved {
+					okMatrix = false
+				}
+			}
+		})
+	}
+	if nMatrix == 0 {
+		c.Viol(R, "text.(*Extractor).invokeXObject#matrix-resolved", fn.Pos(), "the form's /Matrix is not read at all")
+	} else {
+		c.Check(okMatrix, R, "text.(*Extractor).invokeXObject#matrix-resolved", fn.Pos(), "the /Matrix entry goes through the resolver", "the /Matrix entry of a form is asserted to an array without being resolved: a matrix written as an indirect reference is ignored and the form's text is reported at the wrong origin")
+	}
+	// (b) a loop whose condition reads the stack depth and whose body restores
+	depthCall := func(v ssa.Value) bool {
+		for w := range eng.Slice(v, func(*ssa.Call) bool { return true }) {
+			if call, ok := w.(*ssa.Call); ok && strings.HasSuffix(eng.CalleeName(call), ").StackDepth") {
+				return true
+			}
+			if call, ok := w.(*ssa.Call); ok && eng.CalleeName(call) == "builtin:len" {
+				if fr, ok := eng.LoadOfField(call.Call.Args[0]); ok && fr.Field == "stack" {
+					return true
+				}
+			}
+		}
+		return false
+	}
+	okDrain := false
+	for _, h := range cluster {
+		if h.Pkg != fn.Pkg && eng.ShortPath(h.Pkg.Pkg.Path()) != "graphicsstate" {
+			continue
+		}
+		for _, b := range h.Blocks {
+			iff, ok := lastIf(b)
+			if !ok || !eng.InLoop(b) || !depthCall(iff.Cond) {
+				continue
+			}
+			for x := range eng.ReachableBlocks([]*ssa.BasicBlock{b.Succs[0]}, func(y *ssa.BasicBlock) bool { return y == b }) {
+				for _, in := range x.Instrs {
+					if ci, ok := in.(ssa.CallInstruction); ok && strings.HasSuffix(eng.CalleeName(ci), ").Restore") {
+						okDrain = true
+					}
+				}
+			}
+		}
+	}
+	c.Check(okDrain, R, "text.(*Extractor).invokeXObject#stack-restored", fn.Pos(), "states left on the stack by the form are dropped when it ends", "after a form's operations the q/Q stack is not brought back to its depth at entry: a q the form never closed makes the caller's next Q restore the form's state (its /Matrix included) instead of the caller's own")
+	// (c) the Q handler's Restore is conditioned on the depth
+	okFloor, nQ := true, 0
+	for _, ci := range eng.Calls(po, false, func(n string, _ ssa.CallInstruction) bool { return strings.HasSuffix(n, ").Restore") }) {
+		nQ++
+		dep := false
+		for _, iff := range controllingAll(ci.Block()) {
+			if depthCall(iff.Cond) {
+				dep = true
+			}
+		}
+		// the depth test as one operand of a condition (inForm && depth <= floor): a branch on the depth of which
+		// one side cannot reach the Restore
+		for _, b := range po.Blocks {
+			iff, ok := lastIf(b)
+			if !ok || !depthCall(iff.Cond) || len(b.Succs) != 2 {
+				continue
+			}
+			r0 := b.Succs[0] == ci.Block() || eng.ReachableBlocks([]*ssa.BasicBlock{b.Succs[0]}, nil)[ci.Block()]
+			r1 := b.Succs[1] == ci.Block() || eng.ReachableBlocks([]*ssa.BasicBlock{b.Succs[1]}, nil)[ci.Block()]
+			if r0 != r1 {
+				dep = true
+			}
+		}
+		if !dep {
+			okFloor = false
+		}
+	}
+	c.Check(nQ > 0 && okFloor, R, "text.(*Extractor).processOperation#Q-floor", po.Pos(), "Q is carried out only above the depth the form started with", "the Q operator pops the stack whatever its depth: a stray Q inside a form pops a state its caller saved, and the caller's own Q then fails with a stack underflow or restores the wrong state")
+}
+
+// controllingAll: the conditional branches whose outcome decides whether blk runs (its dominators that end in an If of
+// which not both successors lead to blk).
+func controllingAll(blk *ssa.BasicBlock) []*ssa.If {
+	var out []*ssa.If
+	for d := blk.Idom(); d != nil; d = d.Idom() {
+		iff, ok := lastIf(d)
+		if !ok {
+			continue
+		}
+		reach := 0
+		for _, sx := range d.Succs {
+			if sx == blk || sx.Dominates(blk) {
+				reach++
+			}
+		}
+		if reach == 1 {
+			out = append(out, iff)
+		}
+	}
+	return out
+}
